@@ -97,3 +97,13 @@ def replay_counterexample(spec):
     for p in post:
         ok = ok and bool(eval(p, {**vars(mod), **names, "_": got, "__return__": got}))
     return {"reproduced": not ok, "detail": f"{spec['func']}{args} returned {got!r}; postcondition {'violated' if not ok else 'holds'}"}
+
+
+def real_hvsrpy():
+    """import the real package (the CrossHair contract files install a bare package shell named hvsrpy in sys.modules)."""
+    import importlib
+    m = sys.modules.get("hvsrpy")
+    if m is not None and not hasattr(m, "HvsrCurve"):
+        for k in [k for k in sys.modules if k == "hvsrpy" or k.startswith("hvsrpy.")]:
+            del sys.modules[k]
+    return importlib.import_module("hvsrpy")
